@@ -78,6 +78,53 @@ def check(run, prog, tier):
     run.rule("C05-U16", "a value read under internal units is not assigned to a units-managed property of the same object outside "
                         "the internal-units block", minimum=1)
     rule_U16(run, prog)
+    run.rule("C05-U17", "no generator suspends inside a units context: a `yield` under `with energy_units(...)` returns to the "
+                        "caller with the units switched, and restores them whenever the generator happens to be finished or "
+                        "collected", minimum=5)
+    rule_U17(run, prog)
+
+
+def generators_suspending_in(prog, ctx_names):
+    """(function, yield node, with node or None) for every generator of the package: the innermost enclosing `with` whose
+    context expression constructs one of ctx_names, if there is one."""
+    out = []
+    for f in prog.all_functions():
+        if ".tests." in f.qualname or ".wizard." in f.qualname:
+            continue
+        ys = [x for x in walk_no_nested(f.node) if isinstance(x, (ast.Yield, ast.YieldFrom))]
+        if not ys:
+            continue
+        pm = parents_map(f.node)
+        for y in ys:
+            w = None
+            p_ = pm.get(y)
+            while p_ is not None and p_ is not f.node:
+                if isinstance(p_, ast.With) and any(isinstance(it.context_expr, ast.Call) and
+                                                    (call_name(it.context_expr) or "").split(".")[-1] in ctx_names
+                                                    for it in p_.items):
+                    w = p_
+                    break
+                p_ = pm.get(p_)
+            out.append((f, y, w))
+    return out
+
+
+def rule_U17(run, prog, rid="C05-U17", ctx_names=CTX, what="units"):
+    """'no library call changes the units that are active for its caller': a generator that yields inside a units context
+    has entered the context and not left it when control returns to the caller - the caller's loop body runs under the
+    generator's units, and __exit__ runs at an arbitrary later time (exhaustion, garbage collection), when it 'restores'
+    units that may no longer be the ones to restore."""
+    n = 0
+    for f, y, w in generators_suspending_in(prog, ctx_names):
+        n += 1
+        prog.consulted.add(f.relpath)
+        run.obligation(rid, f.short, w is None, key="yield-outside-%s-context" % what,
+                       message="%s yields inside `%s`: between two values the caller runs with the %s this generator has switched to, "
+                               "and the context is left only when the generator is exhausted or collected"
+                               % (f.short, norm(w.items[0].context_expr) if w else "", what),
+                       loc=f.loc(y), sample={"generator": f.short})
+    if n < 5:
+        raise AnalysisError("only %d yields found in the package (5 confirmed)" % n)
 
 
 def rule_U15(run, prog):
